@@ -15,6 +15,9 @@ def E(k, s="", i=None, a=(), f=()):
 
 
 def I(n): return E("int", i=int_to_limbs(n))
+def F(sixtyfourths):
+    """float literal k/64 (exact in binary); carried as the integer k"""
+    return E("float", "%.6f" % (sixtyfourths / 64.0) if sixtyfourths % 64 else "%d.0" % (sixtyfourths // 64), i=int_to_limbs(sixtyfourths))
 def B(b): return E("bool", "true" if b else "false")
 def S(s): return E("str", s)
 def V(n): return E("var", n)
@@ -97,6 +100,7 @@ def pe(e, style="prefix"):
             return "(- -9223372036854775807 1)"
         return str(n)
     if k == "bool": return e["s"]
+    if k == "float": return e["s"] if not e["s"].startswith("-") else "(- 0.0 %s)" % e["s"][1:]
     if k == "str": return _str_lit(e["s"])
     if k == "var": return e["s"]
     if k == "enum": return e["s"]
@@ -210,6 +214,7 @@ def parse_type(s, p):
     T = lambda k, n="", a=(): {"k": k, "n": n, "a": list(a)}
     if s == "int": return T("int")
     if s == "bool": return T("bool")
+    if s == "float": return T("float")
     if s == "string": return T("str")
     if s == "void": return T("void")
     if s.startswith("array<") and s.endswith(">"):
